@@ -176,3 +176,27 @@ Definition marker_free (n : str) : bool :=
   && negb (endswith n (mark_suffix MChg)).
 Definition lookalike_free (t1 t2 : tree) : bool :=
   forallb marker_free (all_names t1) && forallb marker_free (all_names t2).
+
+(* ---- reading a displayed path back ------------------------------------------------------------- *)
+(* "/r/b (-)/c (-)" reads as [(r, MSame); (b, MRem); (c, MRem)]: the names of the path and, for every
+   component, the marker it is displayed with.  Used to state the clauses of the property on the
+   returned path strings themselves (for names that do not already end in a marker). *)
+
+Definition marker_of (c : str) : mark :=
+  if endswith c (mark_suffix MRem) then MRem
+  else if endswith c (mark_suffix MAdd) then MAdd
+  else if endswith c (mark_suffix MChg) then MChg
+  else MSame.
+
+Definition drop_last4 (c : str) : str := rev (skipn 4 (rev c)).
+
+Definition strip_marker (c : str) : str :=
+  if endswith c (mark_suffix MRem) then drop_last4 c
+  else if endswith c (mark_suffix MAdd) then drop_last4 c
+  else if endswith c (mark_suffix MChg) then drop_last4 c
+  else c.
+
+Definition read_path (sep s : str) : list (str * mark) :=
+  map (fun c => (strip_marker c, marker_of c)) (tl (split s sep)).
+Definition read_names (sep s : str) : list str := map fst (read_path sep s).
+Definition read_mark (sep s : str) : mark := last (map snd (read_path sep s)) MSame.
